@@ -732,8 +732,10 @@ impl SubRule {
                                 res_word.syllables.insert(0, Syllable { segments: VecDeque::new(), stress: StressKind::Unstressed, tone: 0 });
                                 res_word.syllables.first_mut().unwrap().segments.push_front(seg);
                             }
-                            if res_word.syllables[si.syll_index].segments.is_empty() {
-                                res_word.syllables.remove(si.syll_index);
+                            // the syllable the segment came from has moved up by one if a new first syllable was made for it
+                            let from_syll = if bi > 0 { si.syll_index } else { si.syll_index + 1 };
+                            if res_word.syllables[from_syll].segments.is_empty() {
+                                res_word.syllables.remove(from_syll);
                             }
                         },
                         // I think we're just gonna disallow these, I can't think of a valid rule where these make sense
